@@ -611,7 +611,10 @@ def rule_accbound(ctx):
             driving = None
             for st, v, chain, stmts, i, _lists in incs:
                 drv = list(chain)
-                if i + 1 < len(stmts) and isinstance(stmts[i + 1], ast.Break):
+                j = i + 1
+                while j < len(stmts) and isinstance(stmts[j], (ast.Expr, ast.Assign, ast.AugAssign, ast.Pass)) and not (isinstance(stmts[j], ast.AugAssign) and isinstance(stmts[j].target, ast.Name) and stmts[j].target.id == name):
+                    j += 1
+                if j < len(stmts) and isinstance(stmts[j], ast.Break):
                     drv = drv[:-1]  # at most once per run of the innermost loop
                 ids = [id(x) for x in drv]
                 if driving is None:
@@ -881,6 +884,93 @@ def rule_valueden(ctx):
 
 
 
+# ------------------------------------------------------------- SETBOUND / ENTROPYNORM
+
+
+def rule_setbound(ctx):
+    """pattern cardinality score = |P_i & Q_j| / max(|P_i|, |Q_j|): the numerator is the size of a *set*
+    intersection of the very two occurrences whose lengths form the denominator, so each cell is <= 1
+    (the establishment / occurrence / three-layer scores are means and maxima of such cells)."""
+    R = "C01.SETBOUND"
+    g = ctx.program.func("pattern._occurrence_intersection", R)
+    sg = ctx.S.get(g.qual)
+    need(len(sg.returns) == 1, R, "_occurrence_intersection: single return expected")
+    t = sg.returns[0].term
+    good = False
+    why = "returns %s, which is not a set intersection: repeated (onset, midi) pairs are counted more than once and a cell can exceed 1" % tm.show(t, 3)
+    if t.op == "bin" and t.a[0] == "&":
+        sides = [t.a[1], t.a[2]]
+        if all(x.op == "call" and call_name(x) in ("builtins.set", "builtins.frozenset") for x in sides):
+            ps = [tm.params_of(x) for x in sides]
+            good = {"occ_P"} in ps and {"occ_Q"} in ps
+            why = "returns set(occ_P) & set(occ_Q)"
+    elif t.op == "call" and call_name(t) in (".intersection",) and t.a[1] and t.a[1][0].op == "call" and call_name(t.a[1][0]) in ("builtins.set", "builtins.frozenset"):
+        good = True
+        why = "returns set(..).intersection(..)"
+    yield ob(R, g, "pattern._occurrence_intersection:set", good, why, node=sg.returns[0].node)
+    f = ctx.program.func("pattern._compute_score_matrix", R)
+    s = ctx.S.get(f.qual)
+    st = [m for m in s.by_kind("mutate") if m.how == "setitem" and m.key.op == "tuple"]
+    need(len(st) == 1, R, "_compute_score_matrix: single cell store expected")
+    cell = st[0].val
+    good = False
+    why = "cell %s is not len(intersection(P_i, Q_j)) / max(len(P_i), len(Q_j))" % tm.show(cell, 4)
+    if cell.op == "bin" and cell.a[0] == "/":
+        num = count_form(cell.a[1])
+        den = strip_numeric(cell.a[2])
+        if num is not None and num[0] == "len" and num[1].op == "call" and call_name(num[1]) == "pattern._occurrence_intersection" and len(num[1].a[1]) == 2:
+            x, y = num[1].a[1]
+            if den.op == "call" and call_name(den) in ("np.max", "builtins.max", "np.maximum"):
+                items = list(den.a[1])
+                if len(items) == 1 and items[0].op in ("list", "tuple"):
+                    items = list(items[0].a)
+                cfs = [count_form(i) for i in items]
+                if len(cfs) == 2 and all(c is not None and c[0] == "len" for c in cfs):
+                    bases = [c[1] for c in cfs]
+                    good = (bases[0] is x and bases[1] is y) or (bases[0] is y and bases[1] is x)
+                    why = "cell = len(intersection(a, b)) / max(len(a), len(b)) over the same two occurrences" if good else "the lengths in the denominator are not those of the two intersected occurrences"
+    yield ob(R, f, "pattern._compute_score_matrix:cell", good, why, node=st[0].node)
+
+
+def rule_entropynorm(ctx):
+    """information gain = (log2(bins) - H) / log2(bins) lies in [0, 1] only if H is the entropy of a histogram
+    with that very number of bins (H <= log2(#bins))."""
+    R = "C01.ENTROPYNORM"
+    f = ctx.program.func("beat.information_gain", R)
+    s = ctx.S.get(f.qual)
+    calls = [c for c in s.calls() if c.callee == "beat._get_entropy"]
+    need(len(calls) == 2, R, "information_gain: forward/backward entropy calls not found")
+    norms = [strip_numeric(d.den) for d in s.by_kind("div") if d.d.get("op", "/") == "/"]
+    logs = [n for n in norms if n.op == "call" and call_name(n) == "np.log2" and len(n.a[1]) == 1]
+    need(logs, R, "information_gain: normaliser log2(bins) not found")
+    nb = logs[0].a[1][0]
+    same = all(n is logs[0] for n in logs)
+    g = ctx.program.func("beat._get_entropy", R)
+    for i, c in enumerate(calls):
+        b = None
+        if len(c.args) >= 3:
+            b = c.args[2]
+        else:
+            b = dict(c.kw).get("bins")
+        good = b is not None and b is nb and same
+        yield ob(R, f, "beat.information_gain:bins@%d" % i, good, "entropy call %d histograms into %s bins and the score is normalised by log2(%s)" % (i, tm.show(b, 2) if b is not None else "its own default number of", tm.show(nb, 2)), node=c.node)
+    sg = ctx.S.get(g.qual)
+    hist = [c for c in sg.calls() if c.callee == "np.histogram"]
+    need(len(hist) == 1, R, "_get_entropy: np.histogram call not found")
+    hb = hist[0].args[1] if len(hist[0].args) >= 2 else dict(hist[0].kw).get("bins")
+    okb = hb is not None and "bins" in tm.params_of(hb)
+    # np.linspace(-0.5, 0.5, bins + 1): exactly `bins` bins
+    exact = False
+    if okb and hb.op == "call" and call_name(hb) == "np.linspace" and len(hb.a[1]) == 3:
+        n = hb.a[1][2]
+        lf = linear_form(n)
+        consts = [c for k, (c, x) in lf.items() if x.op == "const"]
+        exact = any(x.op == "param" and x.a[0] == "bins" and abs(c - 1.0) < 1e-12 for k, (c, x) in lf.items())
+        exact = exact and tm.is_const(hb.a[1][0], -0.5) and tm.is_const(hb.a[1][1], 0.5)
+    yield ob(R, g, "beat._get_entropy:histogram-bins", okb and exact, "the error histogram has `bins` bins over [-0.5, 0.5] (np.linspace(-0.5, 0.5, bins + 1))", node=hist[0].node)
+
+
+
 def rule_matchsrc(ctx):
     """Shared with C05: the hit count in every ratio is the size of a one-to-one matching."""
     from . import c05
@@ -901,4 +991,6 @@ RULES = [
     ("C01.CONSTRET", 83, rule_constret),
     ("C01.ACCBOUND", 4, rule_accbound),
     ("C01.VALUEDEN", 40, rule_valueden),
+    ("C01.SETBOUND", 2, rule_setbound),
+    ("C01.ENTROPYNORM", 3, rule_entropynorm),
 ]
